@@ -28,6 +28,26 @@ fn usage() -> ! {
     std::process::exit(2)
 }
 
+struct FormattingSink;
+impl log::Log for FormattingSink {
+    fn enabled(&self, _: &log::Metadata) -> bool {
+        true
+    }
+    fn log(&self, record: &log::Record) {
+        // format like a real logger would (so that whatever the message computes is computed), keep nothing
+        let s = format!("{}", record.args());
+        std::hint::black_box(s);
+    }
+    fn flush(&self) {}
+}
+static SINK: FormattingSink = FormattingSink;
+
+/// the configuration `IWE_DEBUG=1` of the shipped binaries: debug-level logging switched on
+pub fn enable_debug_logging() {
+    let _ = log::set_logger(&SINK);
+    log::set_max_level(log::LevelFilter::Debug);
+}
+
 pub fn quiet_panics() {
     if std::env::var("VERIF_SHOW_PANICS").is_ok() {
         return;
@@ -54,6 +74,9 @@ fn main() {
             let out = &args[7];
             std::env::set_var("VERIF_WORKER_OUT", out);
             let extra = &args[8..];
+            if extra.iter().any(|e| e == "debuglog") {
+                enable_debug_logging();
+            }
             let agg = match world {
                 "H" => h_check::worker(tier, seed, from, to, extra),
                 "A" => a_check::worker(tier, seed, from, to, extra),
